@@ -6,7 +6,7 @@
 cd /verif
 out=seeded/REGRESSION.txt
 names=("$@")
-if [ ${#names[@]} -eq 0 ]; then names=($(ls seeded | grep -v REGRESSION)); : > $out; fi
+if [ ${#names[@]} -eq 0 ]; then names=($(ls seeded | grep -v REGRESSION)); : > $out; else for n in "${names[@]}"; do sed -i "/^$n /d" $out; done; fi
 if ! git -C /repo diff --quiet; then echo "/repo working tree is dirty; refusing"; exit 2; fi
 for name in "${names[@]}"; do
   d=seeded/$name
@@ -17,7 +17,7 @@ for name in "${names[@]}"; do
     if git -C /repo apply --3way /verif/$d/patch.diff >/dev/null 2>&1; then
       git -C /repo reset -q
     else
-      git -C /repo checkout -q -- . ; git -C /repo reset -q
+      git -C /repo reset -q --hard
       echo "$name $prop SKIPPED (patch against 8654bb4 does not apply to the current head)" | tee -a $out; continue
     fi
   else
@@ -26,7 +26,7 @@ for name in "${names[@]}"; do
   t0=$(date +%s)
   res=$(./check $prop quick 2>&1); rc=$?
   t1=$(date +%s)
-  git -C /repo checkout -q -- . ; git -C /repo reset -q
+  git -C /repo reset -q --hard
   sig=$(echo "$res" | grep -m1 "witness \[" | sed 's/^ *witness \[\([^]]*\)\].*/\1/')
   echo "$name $prop exit=$rc $((t1-t0))s ${sig:-none} $note" | tee -a $out
 done
